@@ -60,7 +60,8 @@ type vfLink struct {
 	onMsg   func(m vfMsg, before bool) // called with the link lock released
 	// rewrite is the MITM stage: it sees every message that arrives as one complete line in one write (all handshake,
 	// name, size and ack lines do) and may return a replacement line.
-	rewrite func(m vfMsg, line []byte) []byte
+	rewrite  func(m vfMsg, line []byte) []byte
+	rewrites []func(m vfMsg, line []byte) []byte // further MITM stages, applied in order after rewrite
 	// wholeTrigger: triggers are recognised within one read (per-read detection is the documented contract), so the
 	// segmenter never splits a piece that carries the trigger marker.
 	wholeTrigger bool
@@ -190,13 +191,20 @@ func (l *vfLink) feed(p []byte) {
 		}
 		if len(pc.data) > 0 {
 			data := pc.data
-			if l.rewrite != nil && len(pc.pre) == 1 && len(pc.post) == 1 && pc.pre[0].Idx == pc.post[0].Idx && pc.post[0].Typ != "BIN" {
+			if (l.rewrite != nil || len(l.rewrites) > 0) && len(pc.pre) == 1 && len(pc.post) == 1 && pc.pre[0].Idx == pc.post[0].Idx && pc.post[0].Typ != "BIN" {
 				l.mu.Lock()
 				mm := l.msgs[pc.post[0].Idx]
 				l.mu.Unlock()
 				if mm.Len == len(data) {
-					if nd := l.rewrite(mm, data); nd != nil {
-						data = nd
+					if l.rewrite != nil {
+						if nd := l.rewrite(mm, data); nd != nil {
+							data = nd
+						}
+					}
+					for _, rw := range l.rewrites {
+						if nd := rw(mm, data); nd != nil {
+							data = nd
+						}
 					}
 				}
 			}
